@@ -363,3 +363,13 @@ class HKeySet:
 
     def copy(self):
         return HKeySet(self.val)
+
+
+class HOptDict:
+    """dict with concrete keys whose presence may be symbolic: key -> [has (bool | z3 Bool), value]."""
+
+    def __init__(self, entries=None):
+        self.entries = {k: list(v) for k, v in (entries or {}).items()}
+
+    def copy(self):
+        return HOptDict(self.entries)
